@@ -1,4 +1,5 @@
 //! Harness library: see /verif/DESIGN.md.
+pub mod capture;
 pub mod env;
 pub mod family;
 pub mod fl;
